@@ -31,7 +31,7 @@ RULE = (
     "the fitted 0-d form, regimes typical / large-noise / tiny-noise / extreme-g / fast-progression, built with load_parameters "
     "exactly as BaseModel.load does) x one design of a class in {random admissible, table admissible, non-positive drift, "
     "feature-list gap (wrong count / duplicates), inadmissible (one documented requirement violated)} x seed (given or None); "
-    "everything is derived from ctx.rng('c18', index). distinct = distinct (model signature, design class, discretised design "
+    "everything is derived from ctx.rng('c18', index); the first 37 indices of each shard sweep the 37 inadmissible variants. distinct = distinct (model signature, design class, discretised design "
     "parameters); non-trivial = the case reached a deciding monitor (postconditions on a returned Result, the step budget, or "
     "the refusal monitor)"
 )
@@ -624,14 +624,27 @@ def classify_bad_refusal(e):
 
 
 # ------------------------------------------------------------------------------------------------ one case
-def build_case(r, max_rows):
-    """Everything about case i (JSON-able description + live objects)."""
+def _inadmissible_variants():
+    return ([("random", k) for k in range(len(INADMISSIBLE_RANDOM))] + [("table", k) for k in range(len(INADMISSIBLE_TABLE))]
+            + [("features", k) for k in range(len(INADMISSIBLE_FEATURES))])
+
+
+def build_case(r, max_rows, i=None):
+    """Everything about case i (JSON-able description + live objects).
+
+    The first ``len(_inadmissible_variants())`` indices of every shard sweep the inadmissible variants one by one (so each
+    documented requirement is exercised by every shard whatever the time budget allows afterwards); later indices are random.
+    """
     factory, meta = gen_model(r)
+    variants = _inadmissible_variants()
+    forced = variants[i] if (i is not None and 0 <= i < len(variants)) else None
     feats = list(meta["model_features"])
     if r.random() < 0.25:  # requested names need not be the model's own names
         feats = [f"sim_{k}" for k in range(meta["dim"])]
     cls = str(r.choice(["random", "table", "neg_drift", "zero_drift", "feat_gap", "inadmissible"],
-                       p=[0.42, 0.25, 0.04, 0.01, 0.06, 0.22]))
+                       p=[0.44, 0.26, 0.04, 0.01, 0.07, 0.18]))
+    if forced is not None:
+        cls = "inadmissible"
     table = None
     expect = "complete"
     label = cls
@@ -665,15 +678,15 @@ def build_case(r, max_rows):
         label = f"feat_gap/{how}"
         expect = "either"
     else:
-        which = str(r.choice(["random", "table", "features"], p=[0.55, 0.25, 0.20]))
+        which, k = variants[int(r.integers(len(variants)))] if forced is None else forced
         if which == "random":
             vp = gen_random_design(r, max_rows)
-            lab, mut = INADMISSIBLE_RANDOM[int(r.integers(len(INADMISSIBLE_RANDOM)))]
+            lab, mut = INADMISSIBLE_RANDOM[k]
             mut(vp, r)
         elif which == "table":
             table, tinfo = gen_table(r, max_rows)
             vp = {"visit_type": "dataframe", "df_visits": table}
-            lab, mut = INADMISSIBLE_TABLE[int(r.integers(len(INADMISSIBLE_TABLE)))]
+            lab, mut = INADMISSIBLE_TABLE[k]
             mut(vp, r)
             table = None
         else:
@@ -682,7 +695,7 @@ def build_case(r, max_rows):
             else:
                 t2, _ = gen_table(r, max_rows)
                 vp = {"visit_type": "dataframe", "df_visits": t2}
-            lab, mut = INADMISSIBLE_FEATURES[int(r.integers(len(INADMISSIBLE_FEATURES)))]
+            lab, mut = INADMISSIBLE_FEATURES[k]
             feats = mut(list(feats), r)
         label = f"inadmissible/{lab}"
         expect = "refuse"
@@ -722,7 +735,7 @@ def run_shard(spec, ctx):
 
     for i in ctx.cases(spec["n"]):
         r = ctx.rng("c18", i)
-        factory, meta, feats, vp, table, expect, label, seed, scramble = build_case(r, max_rows)
+        factory, meta, feats, vp, table, expect, label, seed, scramble = build_case(r, max_rows, i)
         case = describe(i, meta, feats, vp, label, expect, seed)
         try:
             model = factory()
